@@ -267,9 +267,12 @@ class ReaderStreamSuite(Suite):
         for i in range(n):
             fmt = ["vhd", "vdi", "vhdx", "hds"][i % 4]
             mod, sname = READERS[fmt]
-            for _ in range(50):
+            want_many = fmt == "vhd" and i == 0       # one VHD whose table has more than 16384 entries
+            for _ in range(600 if want_many else 50):
                 c = mod.gen_case(rng, "quick")
-                if c["size"] <= 6 * (1 << 20) and not (fmt == "vhdx" and self.bufsize % c["sector_size"]):
+                if want_many and c.get("max_entries", 0) <= 16384:
+                    continue
+                if c["size"] <= (10 if want_many else 6) * (1 << 20) and not (fmt == "vhdx" and self.bufsize % c["sector_size"]):
                     break
             else:
                 continue
